@@ -186,9 +186,9 @@ def compare(obs: List[Dict[str, Any]], exp: List[Dict[str, Any]], spans: List[Tu
 def run_split(bib, text: str, how: str = "split"):
     """Returns (exception name or None, observed blocks)."""
     try:
-        # a budget per call (generous: 60 s + 0.2 ms per character), so that a change that makes the scanner loop ends in a
+        # a budget per call (generous: 30 s + 0.2 ms per character), so that a change that makes the scanner loop ends in a
         # verdict ("raised: Timeout") instead of a harness that never returns
-        with core.time_limit(60 + len(text) * 2e-4):
+        with core.time_limit(30 + len(text) * 2e-4):
             if how == "split":
                 lib = bib.splitter.Splitter(text).split()
             elif how == "default":
@@ -196,7 +196,7 @@ def run_split(bib, text: str, how: str = "split"):
             else:
                 lib = bib.parse_string(text, parse_stack=[])
     except core.Timeout:
-        return "Timeout: no result within 60 s + 0.2 ms per character", []
+        return "Timeout: no result within 30 s + 0.2 ms per character", []
     except (Exception, MemoryError) as e:  # noqa
         return f"{type(e).__name__}: {str(e)[:120]}", []
     obs = observe(lib, bib.model)
@@ -261,8 +261,16 @@ def evaluate(bib, texts: List[str], how: str = "split", shards: int = 16, gramma
        {"text", "raised", "obs", "exp", "diff": {clause: detail}}"""
     pre = []
     cases = []
+    runaway = 0
     for i, text in enumerate(texts):
-        raised, obs = run_split(bib, text, how)
+        if runaway >= 5:
+            # five texts of this batch already ran into the time or memory budget: they are reported; the others are marked
+            # (as raised, so that no check takes them for conforming) instead of spending half a minute on each
+            raised, obs = "Timeout: not evaluated after five earlier calls of this batch ran out of budget", []
+        else:
+            raised, obs = run_split(bib, text, how)
+            if raised and raised.startswith(("Timeout", "MemoryError")):
+                runaway += 1
         problem, spans = (None, [])
         if raised is None:
             problem, spans = locate(text, obs)
